@@ -29,6 +29,7 @@ type WriterSpec struct {
 	Huge     bool   `json:"-"` // drawn from the huge-value class
 	Edge     bool   `json:"-"` // a quarter of its scalars are edge values
 	Boundary bool   `json:"-"` // drawn from the boundary class
+	Million  bool   `json:"-"` // drawn from the million-rows class (bool pages of 64 KiB and more)
 	Giant    bool   `json:"-"` // drawn from the giant-page class (one page body beyond 1 MiB)
 }
 
@@ -119,6 +120,17 @@ type ReplayFile struct {
 	// RaceMonitor is set for findings of the supplementary race-detector
 	// monitor of C13 (not deterministic; replay re-runs the monitor).
 	RaceMonitor *RaceSpec `json:"race_monitor,omitempty"`
+	// TimeSim is set for findings of the simulated-clock arm of C08
+	// (deterministic; replay re-runs that one index in the fake-clock binary).
+	TimeSim *TimeSpec `json:"time_sim,omitempty"`
+}
+
+// TimeSpec is the configuration of one run of the simulated-clock arm of C08
+// (timesim): Runs seeded files, or only the one with index Only (>= 0).
+type TimeSpec struct {
+	Seed uint64 `json:"seed"`
+	Runs int    `json:"runs"`
+	Only int    `json:"only"`
 }
 
 // RaceSpec is the configuration of one race-monitor run.
